@@ -433,10 +433,12 @@ public:
         auto& w = W(); auto& s = *_st;
         bool was = s.open;
         s.open = false;
-        abort_pending();
+        // (the end of the connection is logged BEFORE the pending operations are aborted, so that an
+        //  observer can tell a read aborted by close() from a read cancelled by the read timer)
         if (s.conn_id >= 0) if (auto* c = w.find_conn(s.conn_id)) {
             if (!c->client_closed) { c->client_closed = true; w.conn_end(*c, "client"); }
         }
+        abort_pending();
         if (was || s.connected) jev("stream_close").i("s", s.sid).i("c", s.conn_id < 0 ? 0 : s.conn_id).i("a", s.attempt);
         s.connected = false;
         s.rep = {};
